@@ -8,6 +8,7 @@ import (
 	"testing"
 	"time"
 
+	cfedistributor "github.com/chain4energy/c4e-chain/x/cfedistributor"
 	distrtypes "github.com/chain4energy/c4e-chain/x/cfedistributor/types"
 	mintertypes "github.com/chain4energy/c4e-chain/x/cfeminter/types"
 	sigtypes "github.com/chain4energy/c4e-chain/x/cfesignature/types"
@@ -271,7 +272,7 @@ func TestC20Msgs(t *testing.T) {
 		nowS := nsTime(v.NowNs).Unix()
 		makeCVA(v, g.vacc, sdk.NewCoins(sdk.NewInt64Coin(Denom, 100000)), nowS-10, nowS+1000, sdk.NewCoins(sdk.NewInt64Coin(Denom, 5)))
 		// state: with / without referenced objects
-		stateKind := rapid.IntRange(0, 4).Draw(t, "state")
+		stateKind := rapid.IntRange(0, 5).Draw(t, "state")
 		if stateKind == 4 {
 			// vesting denomination changed by governance (allowed while no pools exist) to whatever validation accepts
 			d := []string{"x", "1a", "a b", "uatom", strings.Repeat("d", 200)}[rapid.IntRange(0, 4).Draw(t, "newDenom")]
@@ -287,6 +288,21 @@ func TestC20Msgs(t *testing.T) {
 		}
 		if stateKind == 3 {
 			v.Advance(2 * 3600 * secNs)
+		}
+		if stateKind == 5 {
+			// governance names the vesting module account as a sub-distributor source (validation accepts
+			// it); the next block sweeps the pools' coins away, so the module cannot pay what it owes
+			drain := DCfg{Subs: []DSub{{Name: "drain", Sources: []DAcc{{Type: tModule, Id: vestingtypes.ModuleName}}, Burn: "0", Primary: DAcc{Type: tBase, Id: KeyAcc(5).Addr.String()}},
+				{Name: "main", Sources: []DAcc{{Type: tMain}}, Burn: "0", Primary: DAcc{Type: tBase, Id: KeyAcc(6).Addr.String()}}}}
+			if res := v.Run(&distrtypes.MsgUpdateParams{Authority: GovAuthority(), SubDistributors: drain.Build().SubDistributors}); res.OK() {
+				func() {
+					defer func() { _ = notRapid(recover()) }()
+					cfedistributor.BeginBlocker(v.Ctx.WithEventManager(sdk.NewEventManager()), v.App.CfedistributorKeeper)
+				}()
+			}
+			if rapid.Bool().Draw(t, "matured") {
+				v.Advance(2 * 3600 * secNs)
+			}
 		}
 		msg, isSig := g.msg()
 		// wire reachability: the message must survive marshal -> unmarshal -> UnpackInterfaces with the
